@@ -10,6 +10,7 @@ from ..viol import Violation, require
 ID = 'C11'
 LEVEL = 'exploration'
 RULE = (
+    'H: two-manager histories: a peer manager of the same kind (other order, possibly fewer variables, own reorderings / declarations / collections) and repeated copies both ways by BDD.copy / copy_bdd / copy_bdds_from; a copy is refused exactly when the target lacks a support variable; copy_vars either way must reproduce names and levels or be refused as a model of the add_var sequence predicts. '
     'S: copies into a target with dynamic reordering enabled, the trigger placed at every node-creation request (as in C09). '
     'E: n<=3 every function x every (source order, target order) pair; n=4 '
     'every function x seeded order pairs (3 quick / 8 thorough); forms '
